@@ -52,8 +52,11 @@ def render(ids, crlf=False, style=None):
             isinstance(style[i], int) else 0
         extra = b''
 
-        if st & 1 and i > 0:
-            out.append(nl * (1 + (st >> 4) % 3))    # blank lines
+        if st & 1:
+            # blank lines (before the first header too; there in either
+            # newline style: the file's style is set by its first *header*)
+            out.append((nl if i > 0 or st & 16 else
+                        (b'\n' if crlf else b'\r\n')) * (1 + (st >> 5) % 3))
 
         if st & 2:
             extra = b', x-pad=' + b'p' * [40, 200, 9000][(st >> 6) % 3]
@@ -137,6 +140,7 @@ def generate(rng, tier, cls):
             'noise': pipe.gen_noise(rng),
             'crlf': rng.chance(0.15),
             'stream': gen.gen_stream(rng)[0],
+            'stream_extras': gen.gen_stream_extras(rng),
             'block_size': rng.choice([None, None, 1, 9, 97])}
 
 
@@ -154,6 +158,19 @@ def sweep_tasks(tier, master):
     tasks.append({'name': 'sweep:prefix-tree', 'first': None, 'depth': 1,
                   'exhaustive': True,
                   'label': 'every candidate id in first and second position'})
+
+    # the same tree again under header styles that never change legality
+    for sname, st in (('blank-line-before-every-header', 1),
+                      ('type=binary-on-every-diff', 4 | 8),
+                      ('options-on-containers', 4)):
+        for first in R.NEXT['diffx']:
+            tasks.append({'name': 'sweep:prefix-tree', 'first': first,
+                          'depth': depth - 1, 'exhaustive': True,
+                          'style_all': st,
+                          'label': 'every candidate id after every legal '
+                                   'prefix of length <= %d, style %s' % (
+                                       depth - 1, sname)})
+
     return tasks
 
 
@@ -168,14 +185,23 @@ def sweep_scenarios(task):
                 for x in rec(prefix + [c], depth - 1):
                     yield x
 
-    if task['first'] is None:
-        for x in rec([], 0):
+    def styled(gen_):
+        st = task.get('style_all')
+
+        for x in gen_:
+            if st:
+                x['style'] = [st] * len(x['ids'])
+
             yield x
 
-        for x in rec(['diffx'], 0):
+    if task['first'] is None:
+        for x in styled(rec([], 0)):
+            yield x
+
+        for x in styled(rec(['diffx'], 0)):
             yield x
     else:
-        for x in rec(['diffx', task['first']], task['depth'] - 2):
+        for x in styled(rec(['diffx', task['first']], task['depth'] - 2)):
             yield x
 
 
@@ -196,7 +222,11 @@ def execute(scn, L):
     recs, end, exc = read_all(w, data, block_size=scn.get('block_size'),
                               stream=scn.get('stream') if scn.get('stream')
                               in ('sim', 'bytesio', 'buffered') else 'sim',
-                              buf=64, actor='R')
+                              buf=64, actor='R',
+                              prefix=(scn.get('stream_extras') or {}).get(
+                                  'prefix', 0),
+                              late_rewind=bool((scn.get('stream_extras') or
+                                                {}).get('late_rewind')))
     out.absorb(w)
     out.case_key = pipe.scn_digest([ids, bool(scn.get('crlf')),
                                     scn.get('style')])
